@@ -1920,6 +1920,7 @@ func (v *Verifier) finishPath(st *State, rs []*Term) {
 	}
 	env := v.topEnv(st)
 	sig := v.curTop.Signature
+	v.curResults = rs
 	for i, r := range rs {
 		ty := sig.Results().At(i).Type()
 		env.vars[fmt.Sprintf("result%d", i)] = Val{r, ty}
@@ -2049,6 +2050,8 @@ func (v *Verifier) verifyFunc(fn *ssa.Function, con *Contract, name string) {
 	st.frames = []*Frame{f}
 	cpkg := v.typesPkg(con.Pkg)
 	v.topVars = map[string]Val{}
+	v.curParams = map[string]*Term{}
+	v.curResults = nil
 	var args []*Term
 	for i, p := range fn.Params {
 		nm := p.Name()
@@ -2064,6 +2067,7 @@ func (v *Verifier) verifyFunc(fn *ssa.Function, con *Contract, name string) {
 		f.vals[p] = t
 		args = append(args, t)
 		v.topVars[nm] = Val{t, p.Type()}
+		v.curParams[p.Name()] = t
 		if nm != p.Name() {
 			v.topVars[p.Name()] = Val{t, p.Type()}
 		}
